@@ -6,6 +6,7 @@ import Mathlib.Tactic.FieldSimp
 import Mathlib.Tactic.NormNum
 import Mathlib.Tactic.LinearCombination
 import Mathlib.Tactic.Positivity
+import Mathlib.Data.Nat.Factorial.DoubleFactorial
 /-!
 # C04 — direct geodesic (Vincenty direct): theorems about the regenerated `GenR.Geodesy.vincdir`
 
@@ -255,7 +256,7 @@ theorem aux_sphere_xy (α u az σ : ℝ) (hα : Real.sin α = Real.cos u * Real.
   simp only [pown_def, sin_def, cos_def, hα]
   linear_combination (Real.cos u ^ 2 * Real.sin az ^ 2) * Real.sin_sq_add_cos_sq σ
     - (Real.cos u ^ 2 * Real.cos σ ^ 2 - Real.sin u ^ 2 * Real.sin σ ^ 2) * Real.sin_sq_add_cos_sq az
-    + (Real.cos σ ^ 2 * Real.cos az ^ 2 - Real.sin σ ^ 2 * Real.cos az ^ 2) * 0
+    - (Real.sin σ ^ 2 * Real.sin az ^ 2) * Real.sin_sq_add_cos_sq u
 
 /-- `(X, Y, S)` is a point of the unit sphere. -/
 theorem aux_sphere_xyz (α u az σ : ℝ) (hα : Real.sin α = Real.cos u * Real.sin az) :
